@@ -217,6 +217,35 @@ def cycle_run(case, res: Result):
 HANDOVER_POINTS = [(0.0, 40.0, 0.0, 0.0), (0.0, 40.0, 5.0, 5.0), (20.0, 40.0, 5.0, 0.0)]
 
 
+def unit_cases(tier, inst):
+    for f in QUICK_FLUIDS:
+        if f in ("water", "CO2"):
+            continue
+        for pi in range(len(HANDOVER_POINTS)):
+            yield {"fluid": f, "point": pi}
+
+
+def unit_run(case, res: Result):
+    """solve() takes a temperature unit: the same operating point given in kelvin (t_unit='K') is the same cycle"""
+    from OpenPinch.classes.simple_heat_pump import SimpleHeatPumpCycle
+
+    Te, Tc, sh, sc = HANDOVER_POINTS[case["point"]]
+    kw = dict(dT_sh=sh, dT_sc=sc, eta_comp=0.7, ihx_gas_dt=0.0, Q_h_total=1.0, refrigerant=case["fluid"])
+    try:
+        a = SimpleHeatPumpCycle(); a.solve(Te, Tc, **kw)
+    except Exception as exc:
+        res.add_case(case, False, outcome="not-solved")
+        return
+    res.add_case(case, True, outcome=[round(x, 3) for x in a.Ps], transitions=2)
+    try:
+        b = SimpleHeatPumpCycle(); b.solve(Te + 273.15, Tc + 273.15, t_unit="K", **kw)
+    except Exception as exc:
+        res.violate("kelvin_input_raises", case, {"error": repr(exc)[:200]}, "units:kelvin_input_raises:" + type(exc).__name__)
+        return
+    if any(abs(x - y) > 1e-7 * abs(y) for x, y in zip(b.Ps, a.Ps)):
+        res.violate("pressure_ne_saturation_pressure", case, {"P_kelvin_input": b.Ps, "P_celsius_input": a.Ps}, "units:kelvin_input_taken_as_celsius")
+
+
 def handover_cases(tier, inst):
     fl = [f for f in QUICK_FLUIDS if f not in ("water", "CO2", "R407C")]  # pure fluids for which all three operating points lie inside the dome
     for a in fl:
@@ -263,6 +292,13 @@ def handover_run(case, res: Result):
 
 
 SUBCHECKS = {
+    "units": SubCheck(
+        name="units",
+        describe="the same operating point given in degrees Celsius and in kelvin (t_unit='K')",
+        rule="case = (fluid, operating point); non-trivial = the Celsius form solves; outcomes = distinct pressure sets",
+        cases=unit_cases, run=unit_run,
+        bound=lambda t: "7 refrigerants x 3 operating points",
+    ),
     "handover": SubCheck(
         name="handover",
         describe="two cycles in one process whose fluids are handed over through the `state` property (name or CoolProp state object) and solved with refrigerant=None",
